@@ -112,7 +112,7 @@ pub fn record(output: &str) {
     quiet_panics();
     let mut out = Out::create(output);
     let mut r = rng(1111);
-    let n = if thorough() { 1500 } else { 90 };
+    let n = if thorough() { 1500 } else { 130 };
     let nano = |x: f64| -> i64 { if x.is_finite() { (x * 1e9).round().min(2e9) as i64 } else { 2_000_000_000 } };
     for k in 0..n {
         // (one cell in six is crowded: 18 to 21 environment objects)
